@@ -97,8 +97,9 @@ RunInit(p) ==
 
 (* the CssData that holds the module cache: the innermost enclosing        *)
 (* @import frame, otherwise the root holder                                 *)
-CssHead == LET S == {i \in DOMAIN stack : stack[i].kind = "import"} IN
-           IF S = {} THEN 0 ELSE CHOOSE i \in S : \A j \in S : j <= i
+CssHeadOf(stk) == LET S == {i \in DOMAIN stk : stk[i].kind = "import"} IN
+                  IF S = {} THEN 0 ELSE CHOOSE i \in S : \A j \in S : j <= i
+CssHead == CssHeadOf(stack)
 CKey(name) == <<CssHead, CacheKey(name)>>
 
 Running == result = "run" /\ stack # <<>>
